@@ -5,7 +5,7 @@
 // left-associative.  The reference parenthesiser below is a textbook precedence climber over that table (written here, not
 // taken from the parser).  Grid: every pair and every triple of the 12 binary operators between plain operands (1,872 cases);
 // IS [NOT] NULL / [NOT] IN after and before every operator; NOT and unary minus in front of every operator pair position;
-// cast / subscript / qualified operands on either side of every operator; negative literals after every operator;
+// cast / subscript / qualified operands (also chained: a cast that is subscripted, two subscripts, two casts) on either side of every operator; negative literals after every operator;
 // parenthesised operands (also in the middle of every operator pair); line breaks between an operator and a unary minus;
 // IN with one element.
 // Also: [NOT] IN lists of one element inside larger expressions.
@@ -91,7 +91,8 @@ fn verif_grid() {
         let (expr, reference) = (format!("a {} - 1 {} c", op, op), paren(&["a".to_owned(), "(-1)".to_owned(), "c".to_owned()], &[BIN[i], BIN[i]]));
         g.case(&format!("negative-literal-spaced-{}", i), move || same(&expr, &reference));
         // cast, subscript, qualified names on either side
-        for (ti, (tight, tref)) in [("b::real", "(b::real)"), ("b[1]", "(b[1])"), ("t.b", "(t.b)"), ("b[1]::real", "((b[1])::real)"), ("t.b[2]", "((t.b)[2])")].iter().enumerate() {
+        for (ti, (tight, tref)) in [("b::real", "(b::real)"), ("b[1]", "(b[1])"), ("t.b", "(t.b)"), ("b[1]::real", "((b[1])::real)"), ("t.b[2]", "((t.b)[2])"),
+                                      ("b::text[1]", "((b::text)[1])"), ("b[1][2]", "((b[1])[2])"), ("b::int::real", "((b::int)::real)"), ("t.b::text[2]", "(((t.b)::text)[2])")].iter().enumerate() {
             let (expr, reference) = (format!("a {} {}", op, tight), format!("(a {} {})", op, tref));
             g.case(&format!("tight-right-{}-{}", ti, i), move || same(&expr, &reference));
             let (expr, reference) = (format!("{} {} a", tight, op), format!("({} {} a)", tref, op));
